@@ -1,2 +1,4 @@
-(* C02 driver section: not implemented yet *)
+(* C02 driver section: C02 (tampered / adversarial random-VOLE replies) runs the same extracted model as C01;
+   its functions (c01.new, c01.recv, c01.adv, c01.ot_new, c01.ot_recv, c01.ot_adv, c01.has) are registered by
+   drv_c01.ml. *)
 let init () = ()
